@@ -139,6 +139,28 @@ ALL = ['C%02d' % i for i in range(1, 21)]
 PENDING_REASON = 'check not built yet in this round (DESIGN.md 4.1 build order); the technique applies and the property will be claimed once its check exists'
 
 
+# sub-checks added in seeded rounds 9 and 10 (appended to the technique of the check)
+TECH_EXTRA = {
+    'C01': 'several RadioDriver objects on one free-running fake dongle (open/close histories, per-link cyclic loss patterns, a slow dongle transaction, channels 0 and 125); error callback closing the driver on the radio thread',
+    'C02': 'enumerated sweeps of firmware-initiated value notifications over the handshake, application re-reads from connected, attempts without a usable driver',
+    'C03': 'first connection cut at every parameter-port packet, then cached connections',
+    'C05': 'log tables above 255 entries; SyncLogger against a device that sends samples right behind the START acknowledgement with one forced thread switch at every decision',
+    'C06': 'refused chunks answered twice (enumerated positions and gaps), varying status bytes',
+    'C07': 'callbacks that rewrite the packet header; registrations made and taken back within one dispatch',
+    'C09': 'long recordings (300-520 poses)',
+    'C11': 'two or three caches inserting into one directory with the order of their file operations enumerated by a turn-taking gate (harness-owned schedule); read-only directories with many files',
+    'C12': 'link that builds frames after send_packet returned; empty image; Bootloader object re-used after an aborted flashing',
+    'C13': 'every trajectory segment packed twice',
+    'C14': 'trajectories (Poly4D and compressed) written into a second and third slot from the same objects',
+    'C15': 'scaled/negated quaternions; indexed solver projection with 1023..4100 rows',
+    'C16': 'align, re-scale the same pose objects, align again',
+    'C17': 'exceptions with no / several arguments and KeyboardInterrupt leaving the context',
+    'C18': 'two senders on one socket transport with the order of their socket calls enumerated',
+    'C19': 'identity-carrying argument objects; URI collections naming one Crazyflie twice; members of other swarms',
+    'C20': 'malformed radio URIs with a fake dongle attached; trailing slashes',
+}
+
+
 def main():
     checks = []
     for pid in ALL:
@@ -147,6 +169,8 @@ def main():
         if not glob.glob(os.path.join(VERIF, 'props', pid.lower() + '_*.py')):
             continue
         cat, ref, engine, tech, text, note = CHECKS[pid]
+        if pid in TECH_EXTRA:
+            tech = tech + '; ' + TECH_EXTRA[pid]
         checks.append({
             'property_id': pid,
             'quick_cmd': '%s check.py %s --tier quick' % (PY, pid),
